@@ -5,7 +5,13 @@ namespace SqlVerif.Stmts
 inductive STok | select | num (n : Nat) | semi | endKw | other
 deriving Repr, DecidableEq
 
+/-- a script (`parse_statements`): the top-level loop does not stop at END -/
 def sqlClass : TokClass STok where
+  isSemi t := t == .semi
+  isEndKw _ := false
+
+/-- a block body (`BEGIN … END` of CREATE PROCEDURE): the loop stops in front of END -/
+def sqlBlockClass : TokClass STok where
   isSemi t := t == .semi
   isEndKw t := t == .endKw
 
